@@ -216,9 +216,30 @@ func genDevinoCase(rt *rapid.T) devinoCase {
 // mapperCase drives qids.Mapper sequentially.
 type mapperCase struct {
 	Paths []uint64 `json:"paths"`
+	// Long > 0: the history is generated instead - five early paths, Long other
+	// paths (each seen by both mappers), the early ones again now and then and at the end
+	Long int `json:"long_history,omitempty"`
+}
+
+func longMapperHistory(n int) []uint64 {
+	var ps []uint64
+	early := []uint64{7, 1 << 40, 3, 0xffffffffffffffff, 0}
+	ps = append(ps, early...)
+	ps = append(ps, early...)
+	for i := 0; i < n; i++ {
+		ps = append(ps, uint64(1000+i), uint64(1000+i))
+		if i%9973 == 0 {
+			ps = append(ps, early[i%len(early)], early[i%len(early)])
+		}
+	}
+	ps = append(ps, early...)
+	return append(ps, early...)
 }
 
 func runMapperCase(c mapperCase) *fail {
+	if c.Long > 0 {
+		c.Paths = longMapperHistory(c.Long)
+	}
 	g := &qids.PathGenerator{}
 	m1, m2 := qids.NewMapper(g), qids.NewMapper(g)
 	type key struct {
@@ -924,6 +945,20 @@ func TestC20(t *testing.T) {
 		}
 	}
 
+	// (3a) "for good": long histories - tens of thousands to a million other
+	// source paths pass through the mapper between two lookups of one path
+	if env.Shard < 4 {
+		for _, n := range []int{1100, 20000, 70000, env.Pick(150000, 1200000)}[env.Shard : env.Shard+1] {
+			c := mapperCase{Long: n}
+			f := runMapperCase(c)
+			h.Case(evid.Hash64(u64b(uint64(n))), true, "mapper:long-history")
+			if f != nil {
+				f.Msg += fmt.Sprintf(" (after %d other source paths)", n)
+				h.report("mapper-seq", f, c)
+				return
+			}
+		}
+	}
 	// (3) mapper, sequential model
 	rapidCases(h, "mapper-seq", env.PerShard(env.Pick(2000, 100000)), func(rt *rapid.T) mapperCase {
 		n := rapid.IntRange(1, 30).Draw(rt, "n")
